@@ -57,10 +57,22 @@ pub fn after_close(run: &mut Run, cond: &Cond, returned: bool, o: &Oracles, pc: 
     let htys = run.handle_types();
     let builtin = has_models(th);
     if !returned {
+        let mut not_closed = false;
         if o.c01 || o.c07 {
-            for u in check_closed(th, &s, builtin) {
-                out.violations.push((format!("not-closed:{}:{}", u.rule, short_sig(&u.what)),
-                    format!("after close() rule `{}` (line {}) is violated: {} under {:?}", u.rule, u.line, u.what, u.assignment)));
+            let unsat = check_closed(th, &s, builtin);
+            not_closed = !unsat.is_empty();
+            // diagnosis for model theories: does the violated rule instance depend on an inherited
+            // tuple? (it does iff it is not a violation of the structure restricted to own tuples)
+            let own_unsat: Vec<(String, usize, Vec<(String, u32)>)> = if builtin && not_closed {
+                let s_own = own_structure(th, &*run.model, &s);
+                check_closed(th, &s_own, false).into_iter().map(|u| (u.rule, u.atom_index, u.assignment)).collect()
+            } else { vec![] };
+            for u in unsat {
+                let inherited = builtin && !u.rule.starts_with("(built-in)") && !own_unsat.iter().any(|x| x.0 == u.rule && x.1 == u.atom_index && x.2 == u.assignment);
+                let tag = if inherited { ":uses-inherited-tuple" } else { "" };
+                out.violations.push((format!("not-closed:{}:{}{}", u.rule, short_sig(&u.what), tag),
+                    format!("after close() rule `{}` (line {}) is violated: {} under {:?}{}", u.rule, u.line, u.what, u.assignment,
+                        if inherited { " (the match uses a member tuple inherited along a morphism)" } else { "" })));
             }
         }
         if o.c07 {
@@ -68,7 +80,7 @@ pub fn after_close(run: &mut Run, cond: &Cond, returned: bool, o: &Oracles, pc: 
                 if eval_cond(run, cond) { out.violations.push(("c07:false-but-holds".into(), "close_until returned false although the condition holds in the closed model".into())); }
             }
         }
-        if o.c02 {
+        if o.c02 && !not_closed {
             match chase(th, &run.assertions, o.elem_cap, o.round_cap, builtin) {
                 Ok(ch) => {
                     if let Err(m) = iso_modulo_handles(th, &s, &roots, &ch.structure, &ch.handles, &htys, false) {
@@ -498,4 +510,26 @@ pub fn c05_reseed(run: &mut Run) {
     run.c05.grow(&counters);
     for t in 0..run.th.types.len() { for i in 0..counters[t] as u32 { run.c05.parent[t][i as usize] = run.model.root(t, i); } }
     run.c05.equated_since_close = false;
+}
+
+/// The structure with every member relation restricted to the tuples stored in the model itself
+/// (asserted or derived there), i.e. without what was pushed forward along morphisms.
+pub fn own_structure(th: &Theory, m: &dyn DynModel, s: &Structure) -> Structure {
+    let rows = m.index_rows();
+    let mut out = s.clone();
+    for (ri, r) in th.rels.iter().enumerate() {
+        if r.member_of.is_none() { continue; }
+        let mut own = std::collections::BTreeSet::new();
+        for (fi, f) in th.index_fields.iter().enumerate() {
+            if f.rel == r.name && f.member.as_deref() == Some("own") && f.eqs.is_none() {
+                for srow in &rows[fi] {
+                    let mut orig = vec![0u32; r.arity.len()];
+                    for (k, &col) in f.order.iter().enumerate() { orig[col] = srow[k]; }
+                    own.insert(orig);
+                }
+            }
+        }
+        out.rels[ri] = own;
+    }
+    out
 }
